@@ -215,6 +215,9 @@ def safe (cfg : Config) (s : St) : Bool :=
 /-- The scope is not touched by a completing operation after its owner may have destroyed it. -/
 def noLateTouch (s : St) : Bool := !s.late
 
+/-- `safe` and never a late touch of the scope -/
+def safeQ (cfg : Config) (s : St) : Bool := safe cfg s && noLateTouch s
+
 /-! ### coding (untrusted; checked on the fly by `checkClosed`) -/
 
 def encThr (t : Thr) : List Nat := [t.ip, t.pc, t.x, t.y, t.todo.length] ++ t.todo
@@ -260,24 +263,28 @@ def decSt (l : List Nat) : St :=
   | _ => badSt
 
 def coded : Coded St :=
-  { enc := fun s => packNats 16 (encSt s), dec := fun n => decSt (unpackNats 16 100 n), M := 4093, W := 300 }
+  { enc := fun s => packNats 16 (encSt s), dec := fun n => decSt (unpackNats 16 100 n), M := 4093, W := 200 }
 
 /-! ### the scenario configurations (mirrored one-to-one by harness/rt/scn_c08.cpp) -/
 
 /-- T1 nests, starts and completes op0; T2 joins. -/
 def cfgRace1 : Config := ⟨[[], [.spawn 0, .fire 0], [.join 0]], 1, 1, false⟩
-/-- T0 nests op0 and joins, T1 completes op0, T2 nests, starts and completes op1 (admission of op1
-    races with the close, the completions race with each other and with the join). -/
-def cfgRace2 : Config := ⟨[[.spawn 0, .join 0], [.fire 0], [.spawn 1, .fire 1]], 2, 1, false⟩
+/-- T0 nests op0 and joins; T1 nests, starts and completes op1, then completes op0 (admission of
+    op1 races with the close, the last completion races with the join). -/
+def cfgRace2 : Config := ⟨[[.spawn 0, .join 0], [.spawn 1, .fire 1, .fire 0]], 2, 1, false⟩
 /-- T0 nests op0, starts the join, then nests op1 (after the close); T1 completes op0. -/
 def cfgLateNest : Config := ⟨[[.spawn 0, .join 0, .spawn 1], [.fire 0]], 2, 1, false⟩
-/-- the same with spawn_detached instead of nest + a receiver of ours. -/
-def cfgDetached : Config := ⟨[[.spawn 0, .join 0], [.fire 0], [.spawn 1, .fire 1]], 2, 1, true⟩
-/-- two racing joins, op0 nested by T0 beforehand and completed by T1. -/
-def cfgTwoJoins : Config := ⟨[[.spawn 0], [.fire 0], [.join 0], [.join 1]], 1, 2, false⟩
+/-- `cfgRace2` with spawn_detached instead of nest + a receiver of ours. -/
+def cfgDetached : Config := ⟨[[.spawn 0, .join 0], [.spawn 1, .fire 1, .fire 0]], 2, 1, true⟩
+/-- two racing joins (T0 and T2), op0 nested by T0 beforehand and completed by T1. -/
+def cfgTwoJoins : Config := ⟨[[.spawn 0, .join 0], [.fire 0], [.join 1]], 1, 2, false⟩
+
+/-- two workers and a joiner, all on their own threads (1045 states: used for the correspondence
+    with the real code only; its safety is an instance of the parametric theorems of Props/C08). -/
+def cfgWide : Config := ⟨[[], [.spawn 0, .fire 0], [.spawn 1, .fire 1], [.join 0]], 2, 1, false⟩
 
 def configs : List (String × Config) :=
   [("v2_race1", cfgRace1), ("v2_race2", cfgRace2), ("v2_late_nest", cfgLateNest),
-   ("v2_detached", cfgDetached), ("v2_two_joins", cfgTwoJoins)]
+   ("v2_detached", cfgDetached), ("v2_two_joins", cfgTwoJoins), ("v2_wide", cfgWide)]
 
 end Unifex.Proto.ScopeV2
